@@ -176,6 +176,11 @@ def run_lattice(ctx, spec):
             names, specs = table[kind]
             fields, total = C.layout(names, specs)
             ctx.see('record_kinds', '%s.%s' % (tname, kind))
+            if len(names) != len(specs):
+                # a value announced by the table has no columns (or columns no value)
+                ctx.evaluated()
+                ctx.violation('table-names-formats-mismatch', '%s.%s names %d fields but has formats for %d' % (
+                    tname, kind, len(names), len(specs)), {'table': tname, 'record': kind, 'values': [1] * len(names)})
             for k, f in enumerate(fields):
                 if f.typ == 'x':
                     continue
